@@ -1,6 +1,8 @@
 //! Shared vocabulary: command specs, builder, observations and reference models.
 
+pub mod conv;
 pub mod dev;
+pub mod r1;
 pub mod obs;
 pub mod spec;
 
